@@ -21,6 +21,22 @@ NEEDS = {
  "C08-2": ("recovery thread skips the restart when the handle is already taken", "the pool dropped while tasks are still queued, at least N of them panicking, with more tasks behind them"),
  "C08-3": ("ThreadPool::drop joins workers that report is_finished() with join().unwrap()", "the pool dropped after a panicked worker has ended but before the recovery thread has replaced it (then drop panics in the caller and the task queued behind the panic never runs)"),
  "C08-4": ("recovery thread polls with recv_timeout(100 ms) and retires when Arc::strong_count(&threads) == 1", "pool dropped while a worker is still busy, then a recovery poll timeout, and only then the busy worker's task panics (tasks queued behind it never run)"),
+ "C01-3": ("connection timeout only armed when no write timeout is set yet; after the first byte only the read timeout is cleared (stream.rs + request.rs)", "threaded runtime with a connection timeout: one served keep-alive request, then idling — no 408 ever comes and the connection stays open"),
+ "C01-4": ("body read by a 4096-byte chunk loop that stops on a short read (both runtimes)", "a segment boundary inside a Content-Length body, or a body larger than the 8 KiB read buffer"),
+ "C04-3": ("client_handler keeps the matched host sub-app across the keep-alive loop", "two requests on one keep-alive connection, the first with a Host matching a sub-app, the second with a different or absent Host"),
+ "C04-4": ("find(host) turned into a loop over every sub-app whose host pattern matches (get_handler and call_websocket_handler)", "two overlapping host patterns, the first without a route for the path, a later one with it"),
+ "C11-3": ("frame payload read in chunks of up to 4096 bytes and unmasked per chunk with the mask index restarting at 0", "a masked payload arriving in more than one read with a read ending at an offset that is not a multiple of 4, and a key with differing bytes"),
+ "C11-4": ("SHA-1 padded-length round-up +583 rewritten as +8+64+512 (= 584)", "an input of length 55 mod 64: a Sec-WebSocket-Key of exactly 19 (83, 147, ...) characters"),
+ "C12-3": ("broadcast loop rewritten with try_for_each: stops at the first write error", "an abruptly vanished client still in the map, at least two broadcasts in one poll iteration, a live client later in iteration order"),
+ "C12-4": ("disconnects of one poll iteration collected in a list and dispatched after the loop; a closed stream stays in the map during the heartbeat check", "heartbeat on, and a Close (or read error) seen in the same poll iteration in which that client's pong timeout elapses: two disconnect events"),
+ "C14-3": ("Option<T>::from_json asks T first and falls back to None only if T rejects the value", "an Option<S> (or Vec<Option<S>> element) holding None where S is a named struct whose fields are all optional: comes back as Some(S { all None })"),
+ "C14-4": ("json! object keys built from stringify!($key) with the quotes trimmed", "a key or rename string containing a quote, backslash or control character (escape sequences are never decoded)"),
+ "C15-3": ("route's websocket option hoisted out of the per-pattern loop and handed out with take()", "a route with two or more comma-separated patterns and a websocket key: only the first keeps it"),
+ "C15-4": ("included file parsed under the including file's name", "the single syntax fault lying inside an included file: reported with the root file's name"),
+ "C19-3": ("blacklist sorted and de-duplicated as strings, looked up with binary_search by address", "a list whose string order differs from address order (127.0.0.9 and 127.0.0.10): some listed addresses are missed"),
+ "C19-4": ("X-Forwarded-For entries passed through strip_port", "a listed IPv6 address ending in an all-decimal group (::1, 2001:db8::1) forwarded by an unlisted peer: the entry is mangled and dropped"),
+ "C20-3": ("accept thread queues a marker task and waits for a worker to run it before stopping the pool", "every worker occupied by a long-lived connection at the signal (N idle keep-alive connections on an N-thread pool): run never returns"),
+ "C20-4": ("tokio connection tasks kept in a JoinSet owned by run; dropping it at shutdown aborts them", "tokio runtime, a handler still running or a response still being written at the signal: truncated or no response"),
  "C09-1": ("CRLF after a chunk read with one read() and a ==2 check", "the upstream's data stopping exactly between the CR and LF after a chunk, or that pair straddling the 8192-byte refill"),
  "C09-2": ("read timeout set after the request is written, write timeout dropped", "an upstream that accepts and never reads, and a request body larger than the kernel socket buffers"),
  "C10-1": ("encoder boundary `length <= 0x10000` for the 16-bit form", "a payload of exactly 65536 bytes"),
